@@ -90,9 +90,10 @@ func normalisePanic(s string) string {
 type mCell struct {
 	itemID int
 	item   interface{}
-	owner  *propOwner // C12 model of this live cell's properties (lazily made)
-	row    *mRow      // the row holding the cell (set when it is added)
-	idx    int        // 0-based position in that row
+	owner  *propOwner     // C12 model of this live cell's properties (lazily made)
+	row    *mRow          // the row holding the cell (set when it is added)
+	idx    int            // 0-based position in that row
+	regs   []*SimCallback // cell-owned registrations this cell carries, in order
 }
 
 type mRow struct {
@@ -148,6 +149,8 @@ type World struct {
 	pendingViolation *Violation
 	tcSizes          map[string]int // printed size of table+columns state per key set
 	liveProbe        int
+	sharedSentinel   error
+	simItems         []*simBase // mutable items created so far
 
 	// callbacks (C13)
 	regs         []*SimCallback
@@ -242,7 +245,11 @@ func (w *World) bindPending() {
 func (w *World) newItem(it Item) (interface{}, int) {
 	w.nextItem++
 	id := w.nextItem
-	return MakeItem(it, id, w.Y, w.Log), id
+	v := MakeItem(it, id, w.Y, w.Log)
+	if b, ok := v.(interface{ base() *simBase }); ok {
+		w.simItems = append(w.simItems, b.base())
+	}
+	return v, id
 }
 
 func (w *World) newCells(items []Item) ([]interface{}, []*mCell) {
@@ -426,6 +433,14 @@ func (w *World) Do(st *Step) bool {
 		w.seps[i].real.Add(tabular.NewCell(v))
 		w.unknownErr++
 		w.Faults["misuse_sep_add"]++
+	case "mutate":
+		// the caller changes an item after storing it and does NOT call Update
+		i := pick(len(w.simItems), st.A)
+		if i < 0 {
+			return true
+		}
+		w.simItems[len(w.simItems)-1-i].text += "~changed"
+		w.probe("item_mutated_without_update")
 	case "scramble":
 		rr := w.Tab.AllRows()
 		switch pick(3, st.A) {
